@@ -24,9 +24,11 @@ Record update := mkUpdate {
 
 Record wnode := mkNode { n_id : Z; n_ver : Z; n_cs : Z; n_lat : Z; n_lon : Z }.
 
-(* m_type: 0 node, 1 way, 2 relation; m_role: interned role string (0 "outer", 1 "inner", ...) *)
+(* m_type: 0 node, 1 way, 2 relation; m_role: interned role string (0 "outer", 1 "inner", ...);
+   m_nodes: the node path Member.Nodes of a way member, interned by content (0 = nil): no function of
+   this package reads or writes it *)
 Record member := mkMember {
-  m_type : Z; m_ref : Z; m_role : Z; m_ver : Z; m_cs : Z; m_lat : Z; m_lon : Z; m_orient : Z }.
+  m_type : Z; m_ref : Z; m_role : Z; m_ver : Z; m_cs : Z; m_lat : Z; m_lon : Z; m_orient : Z; m_nodes : Z }.
 
 Definition point := (Z * Z)%type.
 
@@ -48,7 +50,7 @@ Definition wrap8 (z : Z) : Z := (z + 128) mod 256 - 128.
 (* relation.go applyUpdate: the four assignments and  if u.Reverse { Orientation *= -1 } *)
 Definition upd_member (u : update) (m : member) : member :=
   mkMember (m_type m) (m_ref m) (m_role m) (u_ver u) (u_cs u) (u_lat u) (u_lon u)
-           (if u_rev u then wrap8 (- m_orient m) else m_orient m).
+           (if u_rev u then wrap8 (- m_orient m) else m_orient m) (m_nodes m).
 
 Section Apply.
   Context {C : Type}.
@@ -168,6 +170,7 @@ Fixpoint find_way (id : Z) (ws : list way) : option way :=
   end.
 
 (* w.LineStringAt(at) on a way value *)
+Definition way_line_string (w : way) : list point := line_string (w_nodes w).
 Definition way_line_string_at (w : way) (at_ : Z) : option (list point) :=
   line_string_at at_ (w_nodes w) (w_updates w).
 
